@@ -65,9 +65,10 @@ const (
 	fMustache = "C19-mustache-unescaped"
 	fCtxCR    = "C19-table-fragment-cr"
 	fNbsp     = "C19-nbsp-treated-as-whitespace"
+	fForeign  = "C19-foreign-rawtext-name"
 )
 
-var allFindings = []string{fQuote, fAmp, fBlank, fDocCase, fTextarea, fPreNL, fRawText, fNsAttr, fQuirks, fMustache, fCtxCR, fNbsp}
+var allFindings = []string{fQuote, fAmp, fBlank, fDocCase, fTextarea, fPreNL, fRawText, fNsAttr, fQuirks, fMustache, fCtxCR, fNbsp, fForeign}
 
 // Case is one template source, split into the parts the statement talks about. The source
 // handed to Format is FrontMatter + Gap + Doctype + Body.
@@ -221,6 +222,7 @@ func collapse(s string) string { return strings.Join(strings.Fields(s), " ") }
 
 func attrEq(tag, key, a, b string) bool { return collapse(a) == collapse(b) }
 
+var digitRef = regexp.MustCompile(`&[A-Za-z]+[0-9]`)
 var mustacheRe = regexp.MustCompile(`(?s)\{\{(.*?)\}\}`)
 
 // mustaches lists the {{ ... }} expressions of all text nodes, whitespace-collapsed, sorted.
@@ -360,6 +362,8 @@ func mustacheRisky(text string) bool {
 
 var escapedRaw = map[string]bool{"noscript": true, "iframe": true, "xmp": true, "noembed": true, "noframes": true, "plaintext": true}
 
+var foreignRawNames = map[string]bool{"style": true, "script": true, "noscript": true, "iframe": true, "xmp": true, "noembed": true, "noframes": true, "plaintext": true}
+
 func textOf(n *html.Node) string {
 	var sb strings.Builder
 	for c := n.FirstChild; c != nil; c = c.NextSibling {
@@ -421,6 +425,18 @@ func regions(c Case) map[string]bool {
 				}
 			}
 			if n.Namespace != "" {
+				// inside svg / math the names style, script, xmp ... are ordinary elements: the parser
+				// decodes entities in them and builds child elements
+				if foreignRawNames[n.Data] {
+					if riskyText(textOf(n)) {
+						r[fForeign] = true
+					}
+					for c := n.FirstChild; c != nil; c = c.NextSibling {
+						if c.Type == html.ElementNode {
+							r[fForeign] = true
+						}
+					}
+				}
 				return
 			}
 			switch {
@@ -670,6 +686,9 @@ func classify(c Case) (bool, []string) {
 				switch {
 				case n.Namespace != "":
 					add("el:" + n.Namespace)
+					if foreignRawNames[t] {
+						add("el:" + n.Namespace + ":" + t)
+					}
 				case rawTags[t]:
 					add("el:" + t)
 					if txt := textOf(n); (t == "pre" || t == "textarea") && txt != collapse(txt) {
@@ -720,6 +739,9 @@ func classify(c Case) (bool, []string) {
 						if reparseAttr(v) != v {
 							add("attr-value:entity-like")
 						}
+						if digitRef.MatchString(v) {
+							add("attr-value:entity-like-name-with-digit")
+						}
 					}
 					if strings.ContainsAny(v, "<>") {
 						add("attr-value:comparison")
@@ -755,6 +777,12 @@ func classify(c Case) (bool, []string) {
 					}
 					if strings.Contains(m, "&") {
 						add("text:mustache-with-&")
+					}
+					if html.UnescapeString(m) != m {
+						add("text:mustache-with-entity-like")
+					}
+					if digitRef.MatchString(m) {
+						add("text:mustache-with-entity-like-name-with-digit")
 					}
 					if strings.ContainsAny(m, `"'`) {
 						add("text:mustache-with-quote")
